@@ -1,0 +1,29 @@
+//! Verification hooks: in-memory transport injection
+use std::collections::HashMap;
+use std::future::Future;
+use std::io;
+use std::pin::Pin;
+use std::sync::{Arc, Mutex, OnceLock};
+
+pub use crate::framed::AsyncReadWrite;
+
+pub type Stream = Box<dyn AsyncReadWrite>;
+pub type ConnectFuture = Pin<Box<dyn Future<Output = io::Result<Stream>> + Send>>;
+pub type Connector = Arc<dyn Fn() -> ConnectFuture + Send + Sync>;
+
+fn registry() -> &'static Mutex<HashMap<String, Connector>> {
+    static R: OnceLock<Mutex<HashMap<String, Connector>>> = OnceLock::new();
+    R.get_or_init(|| Mutex::new(HashMap::new()))
+}
+
+pub fn register(addr: &str, c: Connector) {
+    registry().lock().unwrap().insert(addr.to_owned(), c);
+}
+
+pub fn unregister(addr: &str) {
+    registry().lock().unwrap().remove(addr);
+}
+
+pub(crate) fn connector(addr: &str) -> Option<Connector> {
+    registry().lock().unwrap().get(addr).cloned()
+}
